@@ -329,6 +329,24 @@ def gen_enc_case(rng, malformed=False):
     else:
         total = nextafter_n(math.ceil(maxend * fps) / fps, rng.randrange(0, 3))
         total = max(total, maxend)
+    if rng.random() < 0.2:
+        # a note that begins at total_time or inside the last frame (zero length or ending at total_time): its frames
+        # meet the last row of the roll.  Together with an advanced / delayed onset, an occupancy threshold,
+        # non-overlapping onsets or the blank frame this is where the list of decaying weights is longer than the
+        # clipped slice and where the frame to blank lies past the roll (F-C18-3, F-C18-4).
+        s_ = rng.choice([total, total, total - rng.choice([0.25, 0.5, 1.0, 1.5]) / fps, nextafter_n(total, -rng.randrange(1, 3))])
+        s_ = min(max(0.0, s_), total)
+        p = rng.choice([min_pitch, max_pitch, rng.randrange(min_pitch, max_pitch + 1)])
+        notes.append([min(127, max(0, p)), rng.choice([maxv, 1]), s_, total])
+        hist.add('late-note')
+        if rng.random() < 0.7:
+            kw.setdefault('onset_delay_ms', rng.choice([-300.0, -50.0, -3000 / fps, 120, 2000 / fps, 5000 / fps]))
+        if rng.random() < 0.5:
+            kw.setdefault('min_frame_occupancy_for_label', rng.choice([1.0, 0.5, 0.9]))
+        if rng.random() < 0.45:
+            kw.setdefault('onset_overlap', False)
+        if rng.random() < 0.45:
+            kw.setdefault('add_blank_frame_before_onset', True)
     ccs = []
     for _ in range(rng.choice([0, 0, 0, 1, 3, 6])):
         t_, _k = gen_time(rng, fps, maxk + 3)
@@ -860,7 +878,8 @@ def run(chk):
     chk.rule = ('enc: generated sequences (0-30 notes, pitches across and beyond [min_pitch,max_pitch], start/end times from '
                 'decoder-style grid k*(1/fps), k/fps, +-ulps, the edges of the 1e-9 snap window, half/fractional frames, arbitrary '
                 'doubles; fps in {8,16,31.25,32,50,62.5,100} plus a few others; both onset modes, windows, onset/offset lengths, '
-                'positive and negative delays, occupancies, blank frame, non-overlapping onsets, control changes) — all seven rolls '
+                'positive and negative delays, occupancies, blank frame, non-overlapping onsets, control changes; in 1 of 5 a note '
+                'beginning at total_time / inside the last frame combined with those options) — all seven rolls '
                 'compared cell by cell with the Lean model; dec/ons: boolean frame/onset/offset matrices up to 64x16 with float32/'
                 'float64 velocity values, min durations at frame multiples — notes compared in emission order with exact times; '
                 'non-trivial = distinct request whose result is a roll / note list / modelled exception')
